@@ -155,7 +155,7 @@ def _norm(v):
 def _second_solver(text):
     import cvc5
     s = cvc5.Solver()
-    s.setOption("tlimit-per", "60000")
+    s.setOption("tlimit-per", "15000")
     p = cvc5.InputParser(s)
     if "(set-logic" not in text:
         text = "(set-logic ALL)\n" + text
@@ -276,6 +276,10 @@ def run_item(case, root, tier, seed, opts, out, donate=None):
             out["violations"].append(rec)
         for text, expected in second_q:
             r = _second_solver(text)
+            if r not in ("sat", "unsat"):
+                # time limit / unknown: no second opinion on this obligation
+                out["second"]["unknown"] = out["second"].get("unknown", 0) + 1
+                continue
             out["second"]["checked"] += 1
             if r == expected:
                 out["second"]["agree"] += 1
@@ -428,6 +432,7 @@ def run_property(prop, modname, tier, seed, meta, jobs=None, budget_s=None):
         samples.extend(r["samples"])
         second["checked"] += r["second"]["checked"]
         second["agree"] += r["second"]["agree"]
+        second["unknown"] = second.get("unknown", 0) + r["second"].get("unknown", 0)
         pc = per_case.setdefault(r["case"], {"paths": 0, "wall_s": 0.0, "queries": 0})
         pc["paths"] += r["paths"]
         pc["wall_s"] = round(pc["wall_s"] + r["wall_s"], 2)
